@@ -66,3 +66,89 @@ def _(c):
     c.ensures(f"forall(lambda v: implies(v not in {J}, (v in self.name_to_current_definition_nodes) == (v in old(self.name_to_current_definition_nodes))"
               " and implies(v in old(self.name_to_current_definition_nodes), same(self.name_to_current_definition_nodes[v], old(self.name_to_current_definition_nodes)[v]))), 'val')",
               name="names_bound_in_no_branch_keep_their_definitions")
+
+
+@contract("pyanalyze.stacked_scopes.FunctionScope._add_single_constraint", props=P + ["C02", "C01"])
+def _(c):
+    c.param("constraint", "obj:Constraint")
+    c.returns("val")
+    c.fieldspec("definition_node_to_value", "dict[val,val]")
+    c.modifies("self.name_to_current_definition_nodes", "self.definition_node_to_value")
+    c.callee("constraint.varname.get_all_varnames", lambda k: (k.param("self", "val"), k.returns("seq[pair[val,val]]"), setattr(k, "functional", True), setattr(k, "fn_name", "get_all_varnames")))
+    c.callee("constraint.varname.get_varname", lambda k: (k.param("self", "val"), k.returns("val"), setattr(k, "functional", True), setattr(k, "fn_name", "get_varname")))
+    c.callee("self.get_origin", lambda k: (k.param("self", "val"), k.param("v", "val"), k.param("node", "val"), k.param("state", "val"), k.returns("val"), setattr(k, "functional", True), setattr(k, "fn_name", "get_origin")))
+    c.callee("self._resolve_origin", lambda k: (k.param("self", "val"), k.param("d", "val"), k.returns("set[val]"), setattr(k, "functional", True), setattr(k, "fn_name", "resolve_origin")))
+    c.callee("self._add_composite", lambda k: (k.param("self", "val"), k.param("v", "val"), k.returns("val")))
+    c.callee("_ConstrainedValue", lambda k: (k.param("nodes", "val"), k.param("cs", "val"), k.returns("obj:_ConstrainedValue"), setattr(k, "functional", True), setattr(k, "fn_name", "new_ConstrainedValue")))
+    c.loop(0, invariant=[("no_stale_variable_so_far",
+                          "all(forall(lambda n: implies(n in self._resolve_origin(self.get_origin(constraint.varname.get_all_varnames()[j][0], node, state)),"
+                          " n in self._resolve_origin(constraint.varname.get_all_varnames()[j][1])), 'val') for j in range(_k0))"
+                          " and same(self.name_to_current_definition_nodes, old(self.name_to_current_definition_nodes)) and same(self.definition_node_to_value, old(self.definition_node_to_value))")])
+    stale = ("exists(lambda j: 0 <= j and j < len(constraint.varname.get_all_varnames()) and exists(lambda n: n in self._resolve_origin(self.get_origin(constraint.varname.get_all_varnames()[j][0], node, state))"
+             " and n not in self._resolve_origin(constraint.varname.get_all_varnames()[j][1]), 'val'), 'int')")
+    # a narrowing condition computed earlier may be applied only if no variable it mentions has since acquired a definition
+    # the condition did not see (otherwise the narrowed type would not contain the values of the new definition)
+    c.ensures(f"implies(constraint.varname is None or {stale}, same(self.name_to_current_definition_nodes, old(self.name_to_current_definition_nodes))"
+              " and same(self.definition_node_to_value, old(self.definition_node_to_value)))", name="a_stale_constraint_is_not_applied")
+    c.ensures(f"implies(constraint.varname is not None and not {stale}, constraint.varname.get_varname() in self.name_to_current_definition_nodes"
+              " and len(self.name_to_current_definition_nodes[constraint.varname.get_varname()]) == 1)", name="a_current_constraint_becomes_the_single_definition")
+    c.assume("get_origin / _resolve_origin are treated as pure here (get_origin also records the use); _add_composite only maintains the composite index")
+    c.unmodelled += ["self._add_composite"]
+    c.ignore_exceptions += ["KeyError"]
+    c.assume("name_to_current_definition_nodes is a defaultdict(list): the read of a missing name cannot raise (its result, an empty list, only feeds the _ConstrainedValue's definition nodes, about which nothing is claimed)")
+
+
+@contract("pyanalyze.stacked_scopes.FunctionScope.set", props=P)
+def _(c):
+    c.param("varname", "val")
+    c.param("value", "obj:Value")
+    c.returns("val")
+    c.fieldspec("definition_node_to_value", "dict[val,val]")
+    c.fieldspec("name_to_composites", "dict[val,set[val]]")
+    c.fieldspec("referencing_value_vars", "dict[val,val]")
+    c.modifies("self.name_to_current_definition_nodes", "self.definition_node_to_value")
+    c.callee("self._add_composite", lambda k: (k.param("self", "val"), k.param("v", "val"), k.returns("val")))
+    c.unmodelled += ["self._add_composite", "self.name_to_all_definition_nodes", "self.accessed_from_special_nodes", "ref_var.scope"]
+    c.ignore_exceptions += ["KeyError"]
+    c.requires("not isa(value, ReferencingValue) and not isa(self.referencing_value_vars[varname], ReferencingValue)", name="scope.plain_local_variable")
+    c.requires("varname not in self.name_to_composites[varname]", name="class_invariant.the_composites_of_a_name_are_CompositeVariable_objects_not_the_name")
+    comps = "self.name_to_composites[varname]"
+    c.loop(0, invariant=[("only_composites_reset",
+                          "varname in self.name_to_current_definition_nodes and len(self.name_to_current_definition_nodes[varname]) == 1 and same(self.name_to_current_definition_nodes[varname][0], node)"
+                          " and forall(lambda k: implies(k is not varname and k not in old(self.name_to_composites)[varname], (k in self.name_to_current_definition_nodes) == (k in old(self.name_to_current_definition_nodes))"
+                          " and implies(k in old(self.name_to_current_definition_nodes), same(self.name_to_current_definition_nodes[k], old(self.name_to_current_definition_nodes)[k]))), 'val')")])
+    c.ensures("varname in self.name_to_current_definition_nodes and len(self.name_to_current_definition_nodes[varname]) == 1 and same(self.name_to_current_definition_nodes[varname][0], node)",
+              name="an_assignment_kills_all_previous_definitions_of_the_name")
+    c.ensures("node in self.definition_node_to_value and same(self.definition_node_to_value[node], value)", name="the_definition_node_carries_the_assigned_value")
+    c.ensures("forall(lambda k: implies(k is not varname and k not in old(self.name_to_composites)[varname], (k in self.name_to_current_definition_nodes) == (k in old(self.name_to_current_definition_nodes))"
+              " and implies(k in old(self.name_to_current_definition_nodes), same(self.name_to_current_definition_nodes[k], old(self.name_to_current_definition_nodes)[k]))), 'val')",
+              name="other_names_keep_their_definitions")
+    c.assume("defaultdict reads of missing names yield empty containers (not modelled: treated as reads of arbitrary values that cannot raise); global / nonlocal names (ReferencingValue) are outside this contract's scope")
+
+
+@contract("pyanalyze.stacked_scopes.FunctionScope.get_local", props=P)
+def _(c):
+    c.param("varname", "val")
+    c.param("from_parent_scope", "bool")
+    c.returns("pair[val,val]")
+    c.fieldspec("usage_to_definition_nodes", "dict[val,seq]")
+    c.fieldspec("unbound_usages", "set[val]")
+    c.fieldspec("referencing_value_vars", "dict[val,val]")
+    c.modifies("self.usage_to_definition_nodes", "self.unbound_usages")
+    c.callee("self._add_composite", lambda k: (k.param("self", "val"), k.param("v", "val"), k.returns("val")))
+    c.callee("_LookupContext", lambda k: (k.param("a", "val"), k.param("b", "val"), k.param("c", "val"), k.param("d", "val"), k.returns("val")))
+    c.callee("self._get_value_from_nodes", lambda k: (k.param("self", "val"), k.param("nodes", "val"), k.param("ctx", "val"), k.returns("val")))
+    c.callee("self._resolve_origin", lambda k: (k.param("self", "val"), k.param("d", "val"), k.returns("val"), setattr(k, "functional", True), setattr(k, "fn_name", "resolve_origin")))
+    c.unmodelled += ["self._add_composite", "self.accessed_from_special_nodes"]
+    c.ignore_exceptions += ["KeyError"]
+    c.requires("node is not None and state is not VisitorState.check_names and not from_parent_scope", name="scope.a_local_use_visited_while_collecting_names")
+    c.requires("implies((node, varname) not in self.usage_to_definition_nodes, True)")
+    bound = "(varname in old(self.name_to_current_definition_nodes))"
+    defs = "old(self.name_to_current_definition_nodes)[varname]"
+    use = "self.usage_to_definition_nodes[(node, varname)]"
+    c.ensures(f"implies({bound}, (node, varname) in self.usage_to_definition_nodes and all(contains({use}, d) for d in {defs}))", name="a_use_records_every_current_definition_of_the_name")
+    c.ensures(f"implies({bound} and (node, varname) in old(self.unbound_usages), contains({use}, _UNINITIALIZED))", name="a_use_seen_unbound_on_an_earlier_visit_stays_possibly_undefined")
+    c.ensures(f"implies({bound} and (node, varname) in old(self.usage_to_definition_nodes), all(contains({use}, d) for d in old(self.usage_to_definition_nodes)[(node, varname)]))",
+              name="definitions_recorded_on_earlier_visits_are_kept")
+    c.ensures(f"implies(not {bound}, (node, varname) in self.unbound_usages and same(self.usage_to_definition_nodes, old(self.usage_to_definition_nodes)))", name="an_unbound_use_is_remembered")
+    c.assume("usage_to_definition_nodes is a defaultdict(list) (`+=` on a missing key starts from []: modelled as a read that cannot raise); uses are keyed by (node, name) tuples compared structurally")
